@@ -410,12 +410,20 @@ fn gen_lag_pattern(rng: &mut Rng, n: usize) -> Vec<J> {
     v.push(json!({"op":"delete","r":del,"e":victim}));
     if rng.chance(1, 3) { v.push(json!({"op":"repl","from":del,"to":stale})); }
     v.push(json!({"op":"advance","dt":604_801 + rng.below(1000)}));
+    // replicas that are alive write something now and then: a silent replica's whole RUV falls out of the window
+    let heartbeat = rng.chance(2, 3);
+    if heartbeat {
+        for i in 0..n { v.push(json!({"op":"setdn","r":NAMES[i],"e":3,"v":format!("h{}", i)})); }
+    }
     v.push(json!({"op":"purge_rec","r":del}));
     if rng.chance(1, 4) { v.push(json!({"op":"setdn","r":stale,"e":victim,"v":"d8"})); }
     // the changelog window passes and the tombstone is reaped (RUV trim) - or not yet
     let trims = rng.chance(2, 3);
     if trims {
         v.push(json!({"op":"advance","dt":604_801 + rng.below(100_000)}));
+        if heartbeat && rng.chance(1, 2) {
+            for i in 0..n { v.push(json!({"op":"setdn","r":NAMES[i],"e":3,"v":format!("k{}", i)})); }
+        }
         v.push(json!({"op":"purge_ts","r":del}));
     }
     // local writes on old entries after the trim
@@ -619,7 +627,7 @@ pub fn run(o: &Opts) -> i32 {
                     }
                 }
             }
-            if op.get("m").is_some() {
+            if op.get("mx").is_some() {
                 continue; // exchange lines generated by a mesh (replay files): the mesh regenerates them
             }
             if opname == "mesh" {
@@ -640,13 +648,13 @@ pub fn run(o: &Opts) -> i32 {
                             let k = x["sup"].as_str().unwrap_or("?").to_string();
                             let con = x["con"].as_str().unwrap_or("?").to_string();
                             let st = wref.proj().await;
-                            tr.emit(&json!({"op":"repl","from":NAMES[f],"to":NAMES[to],"m":1,"skew":false,"res":x,"st":st,"now":wref.now}));
+                            tr.emit(&json!({"op":"repl","from":NAMES[f],"to":NAMES[to],"mx":1,"skew":false,"res":x,"st":st,"now":wref.now}));
                             wref.now += 1;
                             if k == "refresh_required" {
                                 // the consumer "must be refreshed": do what the server's automatic refresh does
                                 let rr = wref.refresh(f, to).await;
                                 let st = wref.proj().await;
-                                tr.emit(&json!({"op":"refresh","from":NAMES[f],"to":NAMES[to],"m":1,"skew":false,"res":rr,"st":st,"now":wref.now}));
+                                tr.emit(&json!({"op":"refresh","from":NAMES[f],"to":NAMES[to],"mx":1,"skew":false,"res":rr,"st":st,"now":wref.now}));
                                 kinds.push(format!("{}>{}:refreshed", NAMES[f], NAMES[to]));
                                 all_nc = false;
                                 wref.now += 1;
